@@ -18,6 +18,14 @@ def fnd(rule, v, what, bb=None, detail=""):
 
 
 def find(crate, pred):
+    b = _find(crate, pred)
+    if b is not None and b.kind in ("Fn", "AssocFn"):
+        import inline
+        return inline.expand_local_helpers(crate, b)
+    return b
+
+
+def _find(crate, pred):
     for b in crate.bodies:
         if pred(b):
             return b
